@@ -1061,10 +1061,13 @@ def other_start_specs(tier, ids, names=None):
 LONG_SIZES = [11, 12]  # two-digit component suffixes (p_10 sorts before p_2 as text)
 
 
-def long_specs(tier):
+LONG_ID_LISTS = {"quick": [["a"], ["z", "y", "x"]], "thorough": [["a"], ["z", "y", "x"], ["10", "9", "100", "2"]]}
+
+
+def long_specs(tier, only_ids=None):
     """Vector parameters with more than 10 components: one value type, few namings / identifier lists."""
     vset = tier
-    id_lists = [["a"], ["z", "y", "x"]] if tier == "quick" else [["a"], ["z", "y", "x"], ["10", "9", "100", "2"]]
+    id_lists = LONG_ID_LISTS[tier] if only_ids is None else [only_ids]
     namings = [["sources"], ["xi", "sources"]]
     offsets = [0, 3] if tier == "quick" else list(range(len(VALUES[vset])))
     for ids in id_lists:
@@ -1114,7 +1117,7 @@ def bounds(tier):
 
 def shards(tier, seed):
     out = [{"kind": "reject", "route": r} for r in ["add"] + ROUTES]
-    out.append({"kind": "long"})
+    out += [{"kind": "long", "ids": ids} for ids in LONG_ID_LISTS[tier]]
     for names in sorted(NAMINGS[tier], key=len):
         for ids in ID_LISTS[tier]:
             for s in SHAPES:
@@ -1145,7 +1148,7 @@ def run_shard(shard):
                 for sig, msg, exp, obs in viols:
                     acc.violation(sig, msg, {"kind": "reject", "case": case}, exp, obs)
         elif shard["kind"] == "long":
-            for spec in long_specs(tier):
+            for spec in long_specs(tier, shard.get("ids")):
                 explore(spec, _depth(tier), acc, tmp)
         elif shard["kind"] == "other":
             for spec in other_start_specs(tier, shard["ids"], shard.get("names")):
